@@ -311,6 +311,10 @@ def run(ctx, chk):
     # observed through the batch driver: run_games()[name]['prob_min_rew', 'rew_min_reach'] must be this game's, this mode's value
     from . import C12 as _C12
     _C12.observe(ctx, chk, "C14.obs", ['prob_min_rew', 'rew_min_reach'])
+    # the property speaks of every solve: nothing computed by one solve (a memo on the game object, on a class, in a module)
+    # may be handed to the next one - a second solve of the same object, or of another game, would report stale values
+    from . import C10 as _C10
+    _C10.r2_no_carried_state(ctx, chk, "C14.pre:C10.2")
     shared.rule_no_sweep_memo(ctx, chk, "C14.1b")
     r1_forms(ctx, chk)
     r2_precision(ctx, chk)
